@@ -1954,19 +1954,24 @@ def g1_attribute_loops(ctx, repo, wfn, names_written):
         key = lp.target.id
         site = ctx.site(mod, wfn, lp)
         skipped, bad = [], None
-        for st in lp.body:
-            if isinstance(st, ast.If) and any(isinstance(x, ast.Continue) for x in st.body) and not st.orelse:
-                t = st.test
-                ok = isinstance(t, ast.Compare) and len(t.ops) == 1 and isinstance(t.ops[0], ast.Eq) \
-                    and isinstance(t.left, ast.Name) and t.left.id == key and isinstance(t.comparators[0], ast.Constant)
-                if ok:
-                    skipped.append(t.comparators[0].value)
-                elif isinstance(t, ast.Compare) and isinstance(t.ops[0], ast.In) and isinstance(t.left, ast.Name) and t.left.id == key \
-                        and isinstance(t.comparators[0], (ast.Tuple, ast.List, ast.Set)):
-                    skipped += [au.const(e) for e in t.comparators[0].elts]
-                else:
-                    bad = au.src(t)
-        gs = [au.src(t) for c in calls for t, pol in au.guards(c, stop=lp)]
+        # every condition under which an attribute is NOT exported must single out attributes by their name (any spelling:
+        # `if key == 'x': continue`, `if key != 'x': export`, `if key not in (...)`)
+        for c in calls:
+            for t, pol in au.guards(c, stop=lp):
+                if isinstance(t, ast.Compare) and len(t.ops) == 1 and isinstance(t.left, ast.Name) and t.left.id == key:
+                    op, r = t.ops[0], t.comparators[0]
+                    if isinstance(r, ast.Constant) and (isinstance(op, ast.Eq) and not pol or isinstance(op, ast.NotEq) and pol):
+                        skipped.append(r.value)
+                        continue
+                    if isinstance(r, (ast.Tuple, ast.List, ast.Set)) and (isinstance(op, ast.In) and not pol or isinstance(op, ast.NotIn) and pol):
+                        skipped += [au.const(e) for e in r.elts]
+                        continue
+                elif isinstance(t, ast.Compare) and len(t.ops) == 1 and isinstance(t.comparators[0], ast.Name) and t.comparators[0].id == key \
+                        and isinstance(t.left, ast.Constant) and (isinstance(t.ops[0], ast.Eq) and not pol or isinstance(t.ops[0], ast.NotEq) and pol):
+                    skipped.append(t.left.value)
+                    continue
+                bad = ("" if pol else "not ") + au.src(t)
+        gs = []
         handled = all(any(str(nm) == w.split("::")[-1] for w in names_written) for nm in skipped)
         ctx.check(bad is None and not gs and handled, "C04-G1", site,
                   f"geogram: not every attribute of mesh.{lp.iter.value.attr if isinstance(lp.iter.value, ast.Attribute) else '?'} "
